@@ -11,7 +11,12 @@ Tie:
      (b) the model of the Dask path (`mapOverlap` over the generated kernel, driver) against the real
          Dask result and the real NumPy result;
      (c) every listed operation, Dask vs NumPy on the real code, over chunk compositions and
-         schedulers -- this is also the failing-input search.
+         schedulers -- this is also the failing-input search;
+     (d) several lazy results computed *together* (one dask.compute, threads x {2,4,8}), each against
+         its NumPy result: the only place where tasks of different calls share worker threads and
+         process-global state, i.e. where an impure block function (global RNG, module table) shows.
+         The purity itself is a proof obligation (Props/C01.lean `all_block_functions_pure`, decided on
+         the generated effect summaries); this stream is its observation and its failing-input search.
 """
 import itertools
 import math
@@ -21,7 +26,7 @@ import dask.array as da
 import numpy as np
 import xarray as xr
 
-from common import Driver, close, grid_tok, parse_grid, tok
+from common import Driver, Infra, close, grid_tok, parse_grid, tok
 
 PROP = "C01"
 SCHEDULERS = [("synchronous", None), ("threads", 1), ("threads", 2), ("threads", 4), ("threads", 16)]
@@ -131,7 +136,28 @@ def ops_table():
     for nm, nb in [("arvi", 3), ("evi", 3), ("gci", 2), ("nbr", 2), ("nbr2", 2), ("ndvi", 2), ("ndmi", 2),
                    ("savi", 2), ("sipi", 3), ("ebbi", 3)]:
         T[nm] = dict(call=idx(getattr(multispectral, nm), nb), kind="bands", nb=nb)
+    # the public function behind every operation (key of the generated effect summaries, Gen/Effects.lean)
+    mods = dict(slope="slope", aspect="aspect", curvature="curvature", hillshade="hillshade", mean="focal", apply="focal",
+                focal_stats="focal", hotspots="focal", convolution_2d="convolution", binary="classify",
+                reclassify="classify", equal_interval="classify", perlin="perlin", generate_terrain="terrain")
+    for nm in T:
+        T[nm]["fid"] = mods.get(nm, "multispectral") + "." + nm
     return T
+
+
+def stateful_ops(T):
+    """operations whose generated effect summary (facts_effects.py -> Gen/report.json, regenerated by this run
+    from the tree under test) writes process-global state (the global RNG, a module table, ...): these are the ones for which *which other task runs
+    at the same time* can matter.  Falls back to the seeded generators when the report cannot be read."""
+    import json
+    import os
+    from common import LEAN
+    try:
+        rep = json.load(open(os.path.join(LEAN, "XrsVerif", "Gen", "report.json")))["facts:Effects.lean"]["functions"]
+        out = [nm for nm, v in T.items() if rep.get(v["fid"], {}).get("writes")]
+    except (OSError, KeyError, ValueError):
+        out = []
+    return out or [nm for nm, v in T.items() if v["kind"] == "generator"]
 
 
 def gen_params(rng, op, h, w):
@@ -210,15 +236,20 @@ def case_from_json(j):
                 params=params_from_json(j["params"]), data=data)
 
 
-def run_op(T, c, backend):
-    """returns ('ok', ndarray, lazy?) or (exception name, message, None)"""
+def call_op(T, c, backend):
+    """the public call itself (lazy for a Dask-backed raster): returns the DataArray; may raise"""
     op = T[c["op"]]
     chunks = (c["rch"], c["cch"]) if backend == "dask" else None
     aggs = [mk(a.copy(), chunks=chunks, res=c["res"]) for a in c["data"]]
     arg = aggs if op["kind"] == "bands" else aggs[0]
     params = {k: (v.copy() if isinstance(v, np.ndarray) else v) for k, v in c["params"].items()}
+    return op["call"](arg, params)
+
+
+def run_op(T, c, backend):
+    """returns ('ok', ndarray, lazy?) or (exception name, message, None)"""
     try:
-        out = op["call"](arg, params)
+        out = call_op(T, c, backend)
         lazy = isinstance(out.data, da.Array)
         if backend == "dask":
             sched, nw = c["sched"]
@@ -397,9 +428,14 @@ def gen_case(rng, T, op, exhaustive_chunks=None):
                 params=params, data=data)
 
 
-def known_domain_exclusion(c, st_n, out_n):
-    """cases outside the property's domain (both backends must reject or the op is undefined)"""
-    return False
+def known_domain_exclusion(c, st_n, st_d):
+    """cases outside the property's domain: the NumPy call has no result the Dask result could equal.
+
+    hotspots on a raster without deviation (one cell, constant): NumPy rejects it with ZeroDivisionError (the z-score is
+    undefined).  The Dask path cannot know the deviation without computing, and the property itself requires the result to
+    stay Dask-backed until computed, so it cannot reject at call time; /repo leaves the test out on purpose ("commented out
+    to avoid early compute").  There is no NumPy result to compare with -> not judged (tagged in the evidence)."""
+    return c["op"] == "hotspots" and st_n == "ZeroDivisionError" and st_d == "ok"
 
 
 def check_case(r, T, c):
@@ -412,6 +448,9 @@ def check_case(r, T, c):
                  f"status:{st_n}/{st_d}", f"blocks:{min(len(c['rch']) * len(c['cch']), 9)}"])
     if st_n != "ok" and st_d != "ok":
         return  # rejected by both backends: no result to compare
+    if known_domain_exclusion(c, st_n, st_d):
+        r.tag("domain:hotspots-zero-deviation(numpy rejects, dask lazy)")
+        return
     if st_n != "ok" or st_d != "ok":
         r.fail(f"{c['op']}:raises", f"{c['op']}: numpy -> {st_n} ({out_n if st_n != 'ok' else 'value'}), "
                f"dask -> {st_d} ({out_d if st_d != 'ok' else 'value'})", key)
@@ -424,6 +463,109 @@ def check_case(r, T, c):
         r.fail(f"{c['op']}:differs", bad + f" chunks={c['rch']}x{c['cch']} sched={c['sched']}", key)
 
 
+# ---------------------------------------------------------------- several results computed together (scheduler dimension)
+JOINT_WORKERS = [2, 4, 8]
+JOINT_REPEAT = 12      # how often a replay re-runs a recorded joint computation (a race may need a few attempts)
+
+
+def gen_joint(rng, T, pool, stateful):
+    """a *set* of public calls on Dask-backed rasters whose lazy results are computed by ONE `dask.compute(...)`:
+    under a threaded scheduler their tasks share the worker threads and everything process-global.  `stateful`:
+    all calls from the operations that touch global state (distinct seeds); otherwise any operations."""
+    n = rng.randrange(3, 7)
+    calls = []
+    seeds = rng.sample(range(0, 200), n)
+    # 16 permutation tables (128 MB, 0.6 s to build) per terrain graph: at most one per group, in about a third of the groups
+    terrain_ok = rng.random() < 0.35
+    for i in range(n):
+        op = rng.choice(pool)
+        if op == "generate_terrain" and (not terrain_ok or any(c["op"] == op for c in calls)):
+            op = rng.choice([o for o in pool if o != op] or [op])
+        c = gen_case(rng, T, op)
+        if "seed" in c["params"]:
+            c["params"]["seed"] = seeds[i]
+        c["sched"] = ("synchronous", None)     # the scheduler of the group is recorded on the group
+        calls.append(c)
+    return dict(calls=calls, stateful=stateful)
+
+
+def joint_json(calls, sched, rounds):
+    return dict(stream="joint", calls=[case_json(c) for c in calls], sched=list(sched), rounds=rounds, repeat=JOINT_REPEAT,
+                note="several lazy results computed together by one dask.compute(*results, scheduler=sched[0], "
+                     "num_workers=sched[1]); each must equal the NumPy result of the same call.  A failure here can be a "
+                     "race between tasks: a single run may pass, so the replay repeats the computation up to `repeat` times "
+                     "and fails as soon as one repetition differs.")
+
+
+def joint_once(T, calls, expected, sched):
+    """build the lazy results afresh, compute them together, compare each with its NumPy result.
+    -> list of (index, description)"""
+    lazies = [call_op(T, c, "dask") for c in calls]
+    kw = dict(scheduler=sched[0])
+    if sched[1]:
+        kw["num_workers"] = sched[1]
+    got = dask.compute(*[z.data for z in lazies], **kw)
+    bad = []
+    for i, (c, e, g) in enumerate(zip(calls, expected, got)):
+        d = compare(c, e, np.asarray(g))
+        if d:
+            bad.append((i, d))
+    return bad
+
+
+def check_joint(r, T, group, scheds, rounds):
+    calls, expected = [], []
+    for c in group["calls"]:
+        st_n, out_n, _ = run_op(T, c, "numpy")
+        if st_n != "ok":
+            continue                           # rejected input: the single-call stream judges those
+        try:
+            lazy = call_op(T, c, "dask")
+        except Exception:  # noqa: BLE001 -- likewise
+            continue
+        if not isinstance(lazy.data, da.Array):
+            continue
+        calls.append(c)
+        expected.append(out_n)
+    if len(calls) < 2:
+        return
+    for sched in scheds:
+        r.case(dict(stream="joint", sched=list(sched), calls=[case_json(c) for c in calls]),
+               nontrivial=True,
+               tags=["stream:joint-compute", f"joint-sched:{sched[0]}{sched[1] or ''}", f"joint-size:{len(calls)}",
+                     "joint:" + ("stateful-ops" if group["stateful"] else "mixed-ops")] +
+                    sorted({f"joint-op:{c['op']}" for c in calls}))
+        for rnd in range(rounds):
+            try:
+                bad = joint_once(T, calls, expected, sched)
+            except (MemoryError, OSError) as ex:      # the machine, not the library
+                raise Infra(f"joint compute: {type(ex).__name__}: {ex}")
+            except Exception as ex:  # noqa: BLE001
+                bad = [(0, f"joint compute raised {type(ex).__name__}: {str(ex)[:200]}")]
+            if bad:
+                i, d = bad[0]
+                r.fail(f"{calls[i]['op']}:differs-joint",
+                       f"{len(bad)} of {len(calls)} results computed together under scheduler={sched[0]} "
+                       f"num_workers={sched[1]} differ from NumPy (round {rnd}); first: call #{i} {d}",
+                       joint_json(calls, sched, rounds))
+                return
+
+
+def joint_stream(r, T, n_stateful, n_mixed, rounds):
+    pool_s = stateful_ops(T)
+    for nm in pool_s:
+        r.tag(f"joint-stateful-pool:{nm}", 0)
+    for k in range(n_stateful + n_mixed):
+        stateful = k < n_stateful
+        g = gen_joint(r.rng, T, pool_s if stateful else list(T), stateful)
+        # every group under two or three worker counts; the synchronous scheduler as the control
+        ws = JOINT_WORKERS if stateful else [r.rng.choice(JOINT_WORKERS)]
+        scheds = [("threads", w) for w in ws]
+        if r.rng.random() < 0.34:
+            scheds.append(("synchronous", None))
+        check_joint(r, T, g, scheds, rounds)
+
+
 def run(r, scale=1):
     T = ops_table()
     drv = Driver()
@@ -431,15 +573,25 @@ def run(r, scale=1):
     r.rule = ("streams: halo-delivery (dask blocks vs model haloBlock), model-overlap (model mapOverlap of generated "
               "kernels vs real dask), dask-vs-numpy for 26 operations on rasters 1..7 x 1..7, dtypes int8..float64, "
               "NaN/inf cells, res attrs, random chunk compositions (thorough: all compositions for small shapes), "
-              "schedulers synchronous/threads x {1,2,4,16}; non-trivial = more than one block")
+              "schedulers synchronous/threads x {1,2,4,16}; joint-compute: groups of 3-6 calls (all from the operations whose "
+              "generated effect summary writes global state, distinct seeds; or mixed over all operations) whose lazy results are "
+              "computed by one dask.compute under threads x {2,4,8} (synchronous as control), 2-3 rounds, each compared with its "
+              "NumPy result; non-trivial = more than one block / a joint group")
     for body in r.corpus():
-        check_case(r, T, case_from_json(body["case"]))
+        if body["case"].get("stream") == "joint":
+            replay_joint(r, T, body["case"], repeat=2)
+        else:
+            check_case(r, T, case_from_json(body["case"]))
     halo_delivery(r, drv, (40 if quick else 300) * scale)
     model_overlap(r, drv, (30 if quick else 200) * scale)
     per_op = (10 if quick else 60) * scale
     for op in T:
         for _ in range(per_op):
             check_case(r, T, gen_case(r.rng, T, op))
+    import time
+    t0 = time.time()
+    joint_stream(r, T, n_stateful=(4 if quick else 20) * scale, n_mixed=(6 if quick else 40) * scale, rounds=2 if quick else 3)
+    r.extra["joint_stream_seconds"] = round(time.time() - t0, 1)
     if not quick:
         # every chunk composition of every shape up to 4x4 for the stencil / kernel operations
         r.exhaustive = True
@@ -460,10 +612,42 @@ def search(r):
     run(r, scale=4)
 
 
+def replay_joint(r, T, j, repeat=None):
+    """re-run a recorded joint computation: same calls, scheduler and worker count, up to `repeat` times"""
+    calls = [case_from_json(c) for c in j["calls"]]
+    sched = tuple(j["sched"])
+    expected = []
+    for c in calls:
+        st, out, _ = run_op(T, c, "numpy")
+        if st != "ok":
+            r.fail(f"{c['op']}:raises", f"{c['op']}: numpy -> {st} ({out}) in a recorded joint computation", j)
+            return
+        expected.append(out)
+    r.case(dict(j, stream="joint-replay"), nontrivial=True, tags=["stream:joint-replay"])
+    for k in range(repeat or j.get("repeat", JOINT_REPEAT)):
+        try:
+            bad = joint_once(T, calls, expected, sched)
+        except Exception as ex:  # noqa: BLE001
+            bad = [(0, f"joint compute raised {type(ex).__name__}: {str(ex)[:200]}")]
+        if bad:
+            i, d = bad[0]
+            r.fail(f"{calls[i]['op']}:differs-joint",
+                   f"repetition {k}: {len(bad)} of {len(calls)} results computed together under scheduler={sched[0]} "
+                   f"num_workers={sched[1]} differ from NumPy; first: call #{i} {d}", j)
+            return
+
+
 def replay(r, body):
     T = ops_table()
-    c = case_from_json(body["case"])
     before = len(r.failures)
+    if body["case"].get("stream") == "joint":
+        replay_joint(r, T, body["case"])
+        if len(r.failures) > before:
+            print("still fails:", r.failures[-1]["what"])
+            return 1
+        print(f"did not fail in {body['case'].get('repeat', JOINT_REPEAT)} repetitions on the current tree")
+        return 0
+    c = case_from_json(body["case"])
     check_case(r, T, c)
     if len(r.failures) > before:
         print("still fails:", r.failures[-1]["what"])
